@@ -31,7 +31,7 @@ const RS: &[u8] = b"HTTP/1.1 200 OK\r\n";
 
 pub fn families() -> Vec<Family> {
     use Entry::*;
-    vec![
+    let base = vec![
         Family { name: "huge-method", entry: ReqCfg, cfg: 0, gen: |n| rep(b"", b"M", n, b" / HTTP/1.1\r\n\r\n") },
         Family { name: "huge-target", entry: ReqCfg, cfg: 0, gen: |n| rep(b"GET /", b"a", n, b" HTTP/1.1\r\n\r\n") },
         Family { name: "huge-utf8-target", entry: ReqCfg, cfg: 0, gen: |n| rep(b"GET /", "é€".as_bytes(), n, b" HTTP/1.1\r\n\r\n") },
@@ -87,12 +87,35 @@ pub fn families() -> Vec<Family> {
             v.extend(rep(b"", b" ", n / 2, b"OK\r\n\r\n"));
             v
         } },
-    ]
+        Family { name: "colonless-lines", entry: RespCfg, cfg: C_SPACES_AFTER_NAME | C_IGNORE_RESP, gen: |n| rep(RS, b"name junk\r\n", n, b"\r\n") },
+        Family { name: "colonless-lines-then-header", entry: RespCfg, cfg: C_SPACES_AFTER_NAME | C_IGNORE_RESP, gen: |n| rep(RS, b"name  junk\r\n", n, b"A : b\r\n\r\n") },
+        Family { name: "colonless-lines-request", entry: ReqCfg, cfg: C_IGNORE_REQ | C_SPACE_BEFORE_FIRST, gen: |n| rep(RQ, b"name junk\n", n, b"\n") },
+    ];
+    with_option_twins(base)
+}
+
+/// Every header-line family once more with all leniency options of its message kind switched on:
+/// work that is only super-linear under a combination of options (a look-ahead of one option
+/// meeting the line skipper of another) has to show up too.
+fn with_option_twins(mut v: Vec<Family>) -> Vec<Family> {
+    let n = v.len();
+    for i in 0..n {
+        let f = &v[i];
+        let all = if f.entry.is_req() { REQ_BITS } else if f.entry.is_resp() { RESP_BITS } else { continue };
+        let header_lines = !(f.name.starts_with("huge-") || f.name.starts_with("near-miss") || f.name.starts_with("leading-") || f.name.starts_with("multi-space"));
+        if !header_lines || f.cfg == all {
+            continue;
+        }
+        let name: &'static str = Box::leak(format!("{}+all-options", f.name).into_boxed_str());
+        let twin = Family { name, entry: f.entry, cfg: all, gen: f.gen };
+        v.push(twin);
+    }
+    v
 }
 
 /// Variants of one generated input: complete, truncated (last 1 and 3 bytes missing), and ending
 /// in an error (last line end replaced by a control byte).
-fn variants(full: &[u8]) -> Vec<(&'static str, Vec<u8>)> {
+pub fn variants(full: &[u8]) -> Vec<(&'static str, Vec<u8>)> {
     let mut v = vec![("complete", full.to_vec())];
     if full.len() > 3 {
         v.push(("truncated-1", full[..full.len() - 1].to_vec()));
